@@ -20,8 +20,9 @@ NO_RAISE_OPAQUE = {"logger.debug", "logger.info", "logger.warning", "logger.erro
 class SMatch:
     """Result of re.match/search: truthiness is `ok`; groups are opaque strings."""
 
-    def __init__(self, ok: Any, tag: str):
+    def __init__(self, ok: Any, tag: str, rx: tuple | None = None, subject: Any = None, real: Any = None):
         self.ok, self.tag = ok, tag
+        self.rx, self.subject, self.real = rx, subject, real  # rx = (pattern, flags, how)
 
 
 def call(I, n: ast.Call, st: State) -> Iterator[tuple[State, Any]]:
